@@ -211,8 +211,9 @@ def gen_function(rng, name):
 
 
 A_VALUES = ['0', '1', '-1', '3', '-7', '255', '2**31 - 1', '2**31', '-2**31 - 1', '2**32 + 5', '2**62', '2**63 - 1', '2**63',
-            '-2**63', '-2**63 - 1', '2**64 + 3', '10**30', '-2**64', '2**63 + 2**40', '-10**25', '2.5', '-0.5', '1e300', 'True']
-B_VALUES = ['0', '1', '2', '-3', '7', '2**31', '2**63 - 1', '-2**63', '2**65', '0.5', '-2.0', '3']
+            '-2**63', '-2**63 - 1', '2**64 + 3', '10**30', '-2**64', '2**63 + 2**40', '-10**25', '2**70', '-2**66', '3 * 2**62',
+            '2**63 + 1', '2.5', '-0.5', '1e300', 'True']
+B_VALUES = ['0', '1', '2', '-3', '7', '2**31', '2**63 - 1', '-2**63', '2**65', '-2**64', '2**63', '0.5', '-2.0', '3']
 N_VALUES = ['0', '1', '2', '3', '4', '5', '7', '9']
 S_VALUES = ["''", "'a'", "'abc'", "'a\\xe9z'", "'\\u20acuro'", "'x\\U0001f600'"]
 
